@@ -15,7 +15,7 @@ SKIP = (ast.expr_context, ast.operator, ast.boolop, ast.unaryop, ast.cmpop)
 SCOPE_NODES = (ast.Module, ast.FunctionDef, ast.AsyncFunctionDef, ast.ClassDef, ast.Lambda, ast.ListComp, ast.SetComp,
                ast.DictComp, ast.GeneratorExp)
 INLINED = (ast.ListComp, ast.SetComp, ast.DictComp)
-MANGLED = re.compile(r'^__.*(?<!__)$')
+MANGLED = re.compile(r'^(__.*(?<!__)|_\w*?__\w+)$')  # NoMangled: private names (before or after class mangling) are not judged
 
 
 def node_table(tree):
@@ -74,6 +74,26 @@ def kind_label(x, parents=None, top=None) -> str:
             break
         c, q = q, parents.get(id(q))
     return lab
+
+
+def shallow_walk(a):
+    """Nodes under scope node `a` without the bodies / parameters of nested functions and classes (their
+    decorators, defaults, annotations, bases are kept).  Used for the violation labels only."""
+    stack = [a]
+    first = True
+    while stack:
+        x = stack.pop()
+        yield x
+        if not first and isinstance(x, (ast.FunctionDef, ast.AsyncFunctionDef)):
+            kids = x.decorator_list + x.args.defaults + [d for d in x.args.kw_defaults if d] + \
+                [y.annotation for y in ast.walk(x.args) if isinstance(y, ast.arg) and y.annotation] + \
+                ([x.returns] if x.returns else [])
+        elif not first and isinstance(x, ast.ClassDef):
+            kids = x.decorator_list + x.bases + x.keywords
+        else:
+            kids = list(ast.iter_child_nodes(x))
+        first = False
+        stack.extend(kids)
 
 
 def record_corpus(src: str, FST, back: bool = False) -> list | None:
@@ -172,6 +192,9 @@ def record_corpus(src: str, FST, back: bool = False) -> list | None:
                     ann |= idents(x.annotation)
             if isinstance(a, ast.GeneratorExp) and isinstance(x, ast.NamedExpr) and isinstance(x.target, ast.Name):
                 rw.add(x.target.id)
+        for x in shallow_walk(a):
+            if x is a and not isinstance(a, ast.Module):
+                continue
             nm = borne_name(x)
             if nm:
                 kinds.setdefault(nm, set()).add(kind_label(x, parents, a))
